@@ -1448,7 +1448,10 @@ class Unserializer:
 
     def load_longint(self) -> None:
         s = self._read_byte_string()
-        self.stack.append(int(s))
+        try:
+            self.stack.append(int(s))
+        except ValueError:
+            raise LoadError("invalid long integer %r" % s) from None
 
     num2func[opcode.LONGINT] = load_longint
 
@@ -1458,25 +1461,39 @@ class Unserializer:
     num2func[opcode.LONGLONG] = load_longlong
 
     def load_float(self) -> None:
-        binary = self.stream.read(FLOAT_FORMAT_SIZE)
+        binary = self._read_exact(FLOAT_FORMAT_SIZE)
         self.stack.append(struct.unpack(FLOAT_FORMAT, binary)[0])
 
     num2func[opcode.FLOAT] = load_float
 
     def load_complex(self) -> None:
-        binary = self.stream.read(COMPLEX_FORMAT_SIZE)
+        binary = self._read_exact(COMPLEX_FORMAT_SIZE)
         self.stack.append(complex(*struct.unpack(COMPLEX_FORMAT, binary)))
 
     num2func[opcode.COMPLEX] = load_complex
 
+    def _read_exact(self, numbytes: int) -> bytes:
+        if numbytes < 0:
+            raise LoadError("negative length %d - wire protocol corruption?" % numbytes)
+        data = self.stream.read(numbytes)
+        if len(data) != numbytes:
+            raise EOFError("expected %d bytes, got %d" % (numbytes, len(data)))
+        return data
+
     def _read_int4(self) -> int:
-        value: int = struct.unpack("!i", self.stream.read(4))[0]
+        value: int = struct.unpack("!i", self._read_exact(4))[0]
         return value
 
     def _read_byte_string(self) -> bytes:
         length = self._read_int4()
-        as_bytes = self.stream.read(length)
+        as_bytes = self._read_exact(length)
         return as_bytes
+
+    def _decode_utf8(self, as_bytes: bytes) -> str:
+        try:
+            return as_bytes.decode("utf-8")
+        except UnicodeDecodeError:
+            raise LoadError("invalid utf-8 in string %r" % as_bytes) from None
 
     def load_py3string(self) -> None:
         as_bytes = self._read_byte_string()
@@ -1484,7 +1501,7 @@ class Unserializer:
             # XXX Should we try to decode into latin-1?
             self.stack.append(as_bytes)
         else:
-            self.stack.append(as_bytes.decode("utf-8"))
+            self.stack.append(self._decode_utf8(as_bytes))
 
     num2func[opcode.PY3STRING] = load_py3string
 
@@ -1505,7 +1522,7 @@ class Unserializer:
     num2func[opcode.BYTES] = load_bytes
 
     def load_unicode(self) -> None:
-        self.stack.append(self._read_byte_string().decode("utf-8"))
+        self.stack.append(self._decode_utf8(self._read_byte_string()))
 
     num2func[opcode.UNICODE] = load_unicode
 
@@ -1520,7 +1537,10 @@ class Unserializer:
             raise LoadError("not enough items for setitem")
         value = self.stack.pop()
         key = self.stack.pop()
-        self.stack[-1][key] = value  # type: ignore[index]
+        try:
+            self.stack[-1][key] = value  # type: ignore[index]
+        except (TypeError, IndexError):
+            raise LoadError("invalid setitem on %s" % type(self.stack[-1])) from None
 
     num2func[opcode.SETITEM] = load_setitem
 
@@ -1532,7 +1552,10 @@ class Unserializer:
     def _load_collection(self, type_: type) -> None:
         length = self._read_int4()
         if length:
-            res = type_(self.stack[-length:])
+            try:
+                res = type_(self.stack[-length:])
+            except TypeError:
+                raise LoadError("unhashable member for %s" % type_.__name__) from None
             del self.stack[-length:]
             self.stack.append(res)
         else:
@@ -1560,7 +1583,8 @@ class Unserializer:
 
     def load_channel(self) -> None:
         id = self._read_int4()
-        assert self.channelfactory is not None
+        if self.channelfactory is None:
+            raise LoadError("channel object outside of a gateway context")
         newchannel = self.channelfactory.new(id)
         self.stack.append(newchannel)
 
